@@ -421,8 +421,14 @@ class CcosFam(Family):
         return {"fam": "ccos", "to": rng.choice(self.TOS), "val": rng.choice([None, None] + list(range(len(self.VALS)))),
                 "rank": rng.choice([1, 2, 3]), "extra": rng.random() < 0.06}
 
+    # two rules share the root `Cast(ConstantOfShape(·))` (the pattern without `value` also matches a node that has one): which
+    # of them rewrites is decided by their order in the shipped rule set, so half of the hosts also go through the default set
+    p_dflt = 0.5
+
     def corpus(self):
-        return [{"fam": "ccos", "to": TP.INT64, "val": 2, "rank": 2, "extra": False}, {"fam": "ccos", "to": TP.FLOAT, "val": None, "rank": 1, "extra": False}]
+        return [{"fam": "ccos", "to": TP.INT64, "val": 2, "rank": 2, "extra": False}, {"fam": "ccos", "to": TP.FLOAT, "val": None, "rank": 1, "extra": False},
+                {"fam": "ccos", "to": TP.INT64, "val": 1, "rank": 2, "extra": False, "dflt": 1}, {"fam": "ccos", "to": TP.FLOAT, "val": 3, "rank": 1, "extra": False, "dflt": 1},
+                {"fam": "ccos", "to": TP.INT32, "val": None, "rank": 1, "extra": False, "dflt": 1}]
 
     def build(self, c):
         C = rules_common()
